@@ -33,7 +33,15 @@ structure Pending where
   fid : Nat
   op : String
   exp : Expect
+  /-- the source frame has an enum column whose value table contains a value twice (recorded finding KF-C17-enum-dup) -/
+  srcDup : Bool := false
   deriving Inhabited
+
+def hasDupEnum (f : LFrame) : Bool :=
+  f.cols.any (fun c => c.ty == .enum && c.vals.eraseDups.length != c.vals.length)
+
+/-- operations whose result depends on comparing enum cells by their position in the value table -/
+def rankOps : List String := ["filter", "sort", "distinct", "groupagg", "fapply"]
 
 structure GroupPending where
   src : Option LFrame
@@ -459,6 +467,7 @@ def judgeGroups (gp : GroupPending) : Verdict :=
   match gp.src with
   | none => { ok := true }
   | some f =>
+    if hasDupEnum f then { ok := true } else     -- recorded finding KF-C17-enum-dup: not judged
     match gp.keys.mapM f.find? with
     | none => { ok := false, kind := "errdiff", detail := "spec rejects unknown grouping column, got frames" }
     | some keys =>
@@ -512,7 +521,11 @@ def histLine (s : HState) (toks : Array String) : HState × List Msg :=
         | some sf =>
           let (exp, zf) ← expectOp s sf op
           return (fid, op, exp, zf)) toks 1 with
-    | .ok (fid, op, exp, zf) => ({ s with pending := some { fid := fid, op := op, exp := exp }, cbZeroFrom := zf }, [])
+    | .ok (fid, op, exp, zf) =>
+      let dup := match toks[2]?.bind String.toNat? with
+        | some src => (match s.getFrame src with | some (some sf) => hasDupEnum sf | _ => false)
+        | none => false
+      ({ s with pending := some { fid := fid, op := op, exp := exp, srcDup := dup }, cbZeroFrom := zf }, [])
     | .error e => failL (toks[3]?.getD "?") e
   | some "R" =>
     match runP (do
@@ -566,6 +579,8 @@ def histLine (s : HState) (toks : Array String) : HState × List Msg :=
         let s' := (s.setFrame p.fid stored)
         let s' := { s' with pending := none }
         (s', [if v.ok then { cls := "OK", op := p.op, kind := "", detail := "" }
+              else if p.srcDup && rankOps.contains p.op && v.kind != "panic" then
+                { cls := "KNOWN-FINDING", op := p.op, kind := "KF-C17-enum-dup", detail := v.detail }
               else if v.known then { cls := "KNOWN-FINDING", op := p.op, kind := v.kind, detail := v.detail }
               else if v.mirror then { cls := "MIRROR-MISMATCH", op := p.op, kind := v.kind, detail := v.detail }
               else { cls := "SPEC-MISMATCH", op := p.op, kind := v.kind, detail := v.detail }])
